@@ -2,7 +2,12 @@
    `fixed = true`  : the repaired code (one polling loop survives stop()/start(); from_iterable keeps one iterator)
    `fixed = false` : the code as found (start() always schedules a new run(); from_iterable re-iterates and the
                      finishing loop sets stopped).
-   A model step = what happens between two quiescent points of the event loop (harness/srcfam.py). *)
+   A model step = what happens between two quiescent points of the event loop (harness/srcfam.py).
+   Two things happen INSIDE a step and are part of the model:
+   - `SMulti calls`: several start()/stop() calls back to back in one loop callback (no turn of the event loop in
+     between; the run() coroutine that a start() schedules only begins once the callback has returned);
+   - `ss_stop_on = Some v`: the consumer calls stop() on the source from inside its callback when it is handed the
+     element v, i.e. while the polling coroutine is in the middle of an emission. *)
 From Coq Require Import List ZArith Bool Lia Arith.
 Import ListNotations.
 
@@ -20,19 +25,31 @@ Record sst := {
   ss_now : Z; ss_stopped : bool;
   ss_loops : list linst;         (* live polling loops, oldest first *)
   ss_count : nat;                (* from_periodic: calls of the callback so far; fixed from_iterable: shared cursor *)
+  ss_stop_on : option Z;         (* the consumer calls stop() from inside its callback when handed this element *)
 }.
 
-Definition s_init (fixed : bool) (k : skind) (sync : bool) : sst :=
-  {| ss_fixed := fixed; ss_kind := k; ss_sync := sync; ss_now := 0%Z; ss_stopped := true; ss_loops := []; ss_count := 0 |}.
+Definition s_init (fixed : bool) (k : skind) (sync : bool) (on : option Z) : sst :=
+  {| ss_fixed := fixed; ss_kind := k; ss_sync := sync; ss_now := 0%Z; ss_stopped := true; ss_loops := []; ss_count := 0;
+     ss_stop_on := on |}.
 
-Inductive sact := SStart | SStop | SAck | SAdv (dt : Z).
+(* one lifecycle call *)
+Inductive lcall := CStart | CStop.
+
+Inductive sact := SStart | SStop | SAck | SAdv (dt : Z)
+| SMulti (calls : list lcall).    (* back-to-back calls inside one loop callback *)
+
+(* does the consumer react to the element x by calling stop()? *)
+Definition hit (s : sst) (x : Z) : bool :=
+  match ss_stop_on s with Some v => Z.eqb x v | None => false end.
 
 Definition upd (s : sst) (now : Z) (stopped : bool) (loops : list linst) (count : nat) : sst :=
   {| ss_fixed := ss_fixed s; ss_kind := ss_kind s; ss_sync := ss_sync s; ss_now := now; ss_stopped := stopped;
-     ss_loops := loops; ss_count := count |}.
+     ss_loops := loops; ss_count := count; ss_stop_on := ss_stop_on s |}.
 
 (* one loop is at its `while not self.stopped` test with cursor c (iterable) at time `now`; returns the loop
-   (None = exited), the deliveries it makes before suspending, and the updated shared fields *)
+   (None = exited), the deliveries it makes before suspending, and the updated shared fields.  The consumer's
+   stop() (hit) happens inside the emission: the flag is set when the emission returns; from_periodic then still
+   sleeps (or awaits its consumer) before it looks at the flag, from_iterable looks at it at once. *)
 Fixpoint loop_go (fuel : nat) (s : sst) (now : Z) (stopped : bool) (count : nat) (c : nat)
   : option linst * list (Z * Z) * bool * nat :=
   match fuel with
@@ -43,8 +60,8 @@ Fixpoint loop_go (fuel : nat) (s : sst) (now : Z) (stopped : bool) (count : nat)
         match ss_kind s with
         | SPeriodic poll =>
             let v := Z.of_nat (S count) in
-            if ss_sync s then (Some {| li_mode := LSleep (now + poll)%Z; li_cursor := 0 |}, [(now, v)], stopped, S count)
-            else (Some {| li_mode := LEmit; li_cursor := 0 |}, [(now, v)], stopped, S count)
+            if ss_sync s then (Some {| li_mode := LSleep (now + poll)%Z; li_cursor := 0 |}, [(now, v)], hit s v, S count)
+            else (Some {| li_mode := LEmit; li_cursor := 0 |}, [(now, v)], hit s v, S count)
         | SIterable items =>
             let cur := if ss_fixed s then count else c in
             match nth_error items cur with
@@ -52,9 +69,9 @@ Fixpoint loop_go (fuel : nat) (s : sst) (now : Z) (stopped : bool) (count : nat)
             | Some x =>
                 let count' := if ss_fixed s then S count else count in
                 if ss_sync s then
-                  let '(l, dl, st', cnt') := loop_go fuel' s now stopped count' (S c) in
+                  let '(l, dl, st', cnt') := loop_go fuel' s now (hit s x) count' (S c) in
                   (l, (now, x) :: dl, st', cnt')
-                else (Some {| li_mode := LEmit; li_cursor := S c |}, [(now, x)], stopped, count')
+                else (Some {| li_mode := LEmit; li_cursor := S c |}, [(now, x)], hit s x, count')
             end
         end
   end.
@@ -115,6 +132,46 @@ Fixpoint ack_first (s : sst) (loops : list linst) (stopped : bool) (count : nat)
       end
   end.
 
+(* the flags after back-to-back calls and the number of run() coroutines they schedule.  `running` = a polling
+   loop is alive or already scheduled (repaired code: self._running) *)
+Fixpoint multi_flags (fixed : bool) (calls : list lcall) (stopped running : bool) (spawn : nat) : bool * nat :=
+  match calls with
+  | [] => (stopped, spawn)
+  | CStop :: t => multi_flags fixed t true running spawn
+  | CStart :: t =>
+      if stopped then
+        if fixed && running then multi_flags fixed t false running spawn
+        else multi_flags fixed t false true (S spawn)
+      else multi_flags fixed t stopped running spawn
+  end.
+
+(* the scheduled run() coroutines begin, in order, once the callback has returned *)
+Fixpoint spawn_go (n : nat) (s : sst) (now : Z) (stopped : bool) (count : nat)
+  : list linst * list (Z * Z) * bool * nat :=
+  match n with
+  | O => ([], [], stopped, count)
+  | S n' =>
+      let '(l, dl, st, c) := loop_go (fuel_of s) s now stopped count 0 in
+      let st' := if ss_fixed s then st else (match l, ss_kind s with None, SIterable _ => true | _, _ => st end) in
+      let '(ls, dl2, st2, c2) := spawn_go n' s now st' c in
+      ((match l with Some x => [x] | None => [] end) ++ ls, dl ++ dl2, st2, c2)
+  end.
+
+Definition no_loops (s : sst) : bool := match ss_loops s with [] => true | _ => false end.
+
+Definition s_multi (s : sst) (calls : list lcall) : sst * list (Z * Z) :=
+  let '(st, n) := multi_flags (ss_fixed s) calls (ss_stopped s) (negb (no_loops s)) 0 in
+  let '(ls, dl, st', c) := spawn_go n s (ss_now s) st (ss_count s) in
+  (upd s (ss_now s) st' (ss_loops s ++ ls) c, dl).
+
+(* the last call decides the flag: an action that cannot leave a stopped source started *)
+Definition quiet (a : sact) : bool :=
+  match a with
+  | SStart => false
+  | SMulti calls => match last calls CStop with CStart => false | CStop => true end
+  | _ => true
+  end.
+
 Definition s_step (s : sst) (a : sact) : sst * list (Z * Z) :=
   match a with
   | SStart =>
@@ -132,6 +189,7 @@ Definition s_step (s : sst) (a : sact) : sst * list (Z * Z) :=
       let '(loops, dl, st, c) := ack_first s (ss_loops s) (ss_stopped s) (ss_count s) in
       (upd s (ss_now s) st loops c, dl)
   | SAdv dt => s_adv (Z.to_nat dt) s
+  | SMulti calls => s_multi s calls
   end.
 
 Fixpoint s_run (s : sst) (acts : list sact) : sst * list (list (Z * Z)) :=
